@@ -13,7 +13,7 @@ refsim - children are evaluated separately and never flattened.
 """
 import itertools
 
-from mcv import common, refsim, space
+from mcv import common, refsim, snapshot, space
 from mcv.common import Acc
 
 ID = "C06"
@@ -424,7 +424,36 @@ def run_history(acc, ops, site, strip=True, shared=False):
         prime_strip(c)
         for ign in strip_ignores(c):
             check_strip(acc, c, insts, case, ign)
+    check_self(acc, c, {"kind": "history", "ops": ops, "site": site, "shared": shared})
     return True
+
+
+def check_self(acc, c, case, only=None):
+    """The circuit reached by the history is instantiated inside ITSELF (add_subcircuit(c, name, conn) with c as the
+    child: two copies of a design side by side).  Differential oracle: the call with the very object as the child must
+    do exactly what the call with an independent copy of it as the child does on an independent copy of the parent -
+    the same circuit and registry afterwards, or the same kind of refusal with the parent left as it was.  The
+    non-aliased call is what every other history of this check judges against the hierarchical reference."""
+    conns = [None, {"a": "a"}, {"a": "b", "b": "a"}]
+    for conn in conns:
+        if only is not None and common.jdump(conn) != common.jdump(only):
+            continue
+        acc.transitions += 1
+        res = []
+        for aliased in (True, False):
+            x = snapshot.clone(c)
+            child = x if aliased else snapshot.clone(c)
+            try:
+                x.add_subcircuit(child, "s9", dict(conn) if conn else None)
+                res.append(("ok", snapshot.key(x)))
+            except Exception as e:  # noqa: BLE001
+                res.append((common.exc_name(e), snapshot.key(x)))
+        if res[0] != res[1]:
+            acc.violation("self-child", f"aliased:{res[0][0]}/copy:{res[1][0]}", dict(case, self_child=conn),
+                          "add_subcircuit(c, 's9', conn) with c itself as the child differs from the same call with a copy of c as the child"
+                          + ("" if res[0][0] == res[1][0] else f" ({res[0][0]} vs {res[1][0]})"))
+            return
+        acc.outcome("self-child-" + ("ok" if res[0][0] == "ok" else "refused"))
 
 
 def strip_ignores(c):
@@ -588,6 +617,9 @@ def replay(case, job):
         if not check_state(acc, c, insts, cs, case.get("site", "single")):
             ok = False
             break
+    if ok and "self_child" in case:
+        check_self(acc, c, case, only=case["self_child"])
+        return acc.result()
     if ok and c.blackboxes:
         ign = case.get("strip_ignore", "__all__")
         prime_strip(c)
